@@ -70,7 +70,8 @@ Proof.
   - constructor. eapply HR; eassumption.
   - constructor.
     + intros fd E. rewrite <- (mem_perm fd _ _ Hp). apply Hc, E.
-    + intro r. apply IH. apply step_owned_perm, Hp.
+    + intros r Hf. apply IH; [|apply step_owned_perm, Hp].
+      intros n Hn Hin. apply (Hf n Hn). eapply Permutation_in; [exact Hp|exact Hin].
   - constructor.
   - constructor.
 Qed.
@@ -80,7 +81,7 @@ Lemma bal_bind {A B} (R1 : A -> list Z -> Prop) (R2 : B -> list Z -> Prop) o (p 
 Proof.
   intros Hp Hf. induction Hp as [a o Ha | c k o Hc Hk IH | s o | o]; cbn.
   - apply Hf, Ha.
-  - constructor; [exact Hc|]. intro r. apply IH.
+  - constructor; [exact Hc|]. intros r Hfr. apply IH, Hfr.
   - constructor.
   - constructor.
 Qed.
@@ -94,25 +95,30 @@ Proof. intros Hp H. induction Hp; constructor; auto. Qed.
 
 Theorem bal_sound_on_traces {A} (R : A -> list Z -> Prop) (p : prog A) :
   forall o t idx a n foreign,
-    bal R o p -> run_trace p t idx = RDone a n ->
+    bal R o p -> run_trace p t idx = RDone a n -> trace_fresh t o = true ->
     exists o', trace_owned t o foreign = (o', foreign) /\ R a o'.
 Proof.
   intros o t idx a n foreign Hb. revert t idx foreign.
-  induction Hb as [a' o Ha | c k o Hc Hk IH | s o | o]; intros t idx foreign Hr.
+  induction Hb as [a' o Ha | c k o Hc Hk IH | s o | o]; intros t idx foreign Hr Hfr.
   - destruct t; cbn in Hr; [|discriminate]. inversion Hr; subst. exists o. split; [reflexivity|exact Ha].
   - destruct t as [|[c' r] t']; cbn in Hr; [discriminate|].
     destruct (call_eqb c c') eqn:E; [|discriminate].
     cbn [trace_owned].
     assert (Hcc : step_owned o c' r = step_owned o c r /\
-                  (match c' with Close fd => if mem fd o then foreign else fd :: foreign | _ => foreign end) = foreign).
-    { destruct c, c'; cbn in E; try discriminate; try (split; reflexivity).
+                  (match c' with Close fd => if mem fd o then foreign else fd :: foreign | _ => foreign end) = foreign /\
+                  opens c' r = opens c r).
+    { destruct c, c'; cbn in E; try discriminate; try (repeat split; reflexivity).
       all: repeat match goal with H : _ && _ = true |- _ => apply andb_true_iff in H; destruct H end.
       all: repeat match goal with H : zeqb _ _ = true |- _ => apply Z.eqb_eq in H; subst end.
       all: repeat match goal with H : beq _ _ = true |- _ => apply beq_true_iff in H; subst end.
       all: repeat match goal with H : N.eqb _ _ = true |- _ => apply N.eqb_eq in H; subst end.
-      all: try (split; reflexivity).
-      split; [reflexivity|]. rewrite (Hc fd0 eq_refl). reflexivity. }
-    destruct Hcc as [Hs Hf]. rewrite Hs, Hf. eapply IH. exact Hr.
+      all: try (repeat split; reflexivity).
+      split; [reflexivity|split; [|reflexivity]]. rewrite (Hc fd0 eq_refl). reflexivity. }
+    destruct Hcc as (Hs & Hf & Ho). rewrite Hs, Hf.
+    cbn [trace_fresh] in Hfr. apply andb_true_iff in Hfr. destruct Hfr as [Hfr1 Hfr2]. rewrite Hs in Hfr2. rewrite Ho in Hfr1.
+    eapply IH; [|exact Hr|exact Hfr2].
+    intros m Hm Hin. rewrite forallb_forall in Hfr1. specialize (Hfr1 m Hm).
+    apply negb_true_iff in Hfr1. apply mem_in in Hin. congruence.
   - cbn in Hr. discriminate.
   - cbn in Hr. discriminate.
 Qed.
@@ -137,7 +143,7 @@ Lemma bal_neutral_call {A} (R : A -> list Z -> Prop) o c k :
 Proof.
   intros [Ho Hc] Hk. constructor.
   - intros fd E. exfalso. exact (Hc fd E).
-  - intro r. replace (step_owned o c r) with o; [apply Hk|].
+  - intros r _. replace (step_owned o c r) with o; [apply Hk|].
     destruct c; cbn [step_owned]; try (rewrite Ho; reflexivity). exfalso. exact (Hc fd eq_refl).
 Qed.
 
@@ -176,7 +182,7 @@ Lemma w_openat_follow_bal fz fd n fl m o : bal (Rfd o) o (w_openat_follow fz fd 
 Proof.
   unfold w_openat_follow. destruct (negb (valid_fd fd)); [constructor; hnf; reflexivity|].
   unfold rustix_path. destruct (has_nul n); [apply fail1_bal; [apply perm_closed_Rfd|hnf; reflexivity]|].
-  constructor; [intros ? E; discriminate|]. intro r. cbn [step_owned opens].
+  constructor; [intros ? E; discriminate|]. intros r _. cbn [step_owned opens].
   destruct (as_fd r) as [k|e]; cbn [app].
   - constructor. hnf. reflexivity.
   - apply fail1_bal; [apply perm_closed_Rfd|hnf; reflexivity].
@@ -189,7 +195,7 @@ Lemma w_openat2_bal fz fd p fl m rs o : bal (Rfd o) o (w_openat2 fz fd p fl m rs
 Proof.
   unfold w_openat2. destruct (negb (valid_fd fd)); [constructor; hnf; reflexivity|].
   destruct (OPENAT2_NUL_EINVAL && has_nul p); [apply fail1_bal; [apply perm_closed_Rfd|hnf; reflexivity]|].
-  constructor; [intros ? E; discriminate|]. intro r. cbn [step_owned opens].
+  constructor; [intros ? E; discriminate|]. intros r _. cbn [step_owned opens].
   destruct (as_fd r) as [k|e]; cbn [app].
   - constructor. hnf. reflexivity.
   - apply fail1_bal; [apply perm_closed_Rfd|hnf; reflexivity].
@@ -256,7 +262,7 @@ Proof. unfold w_renameat2, w_renameat. destruct (N.eqb fl 0); apply two_fd_bal; 
 
 Lemma dup_cloexec_bal fd o : bal (@Rfd N o) o (dup_cloexec fd).
 Proof.
-  unfold dup_cloexec. constructor; [intros ? H; discriminate|]. intro r. cbn [step_owned opens].
+  unfold dup_cloexec. constructor; [intros ? H; discriminate|]. intros r _. cbn [step_owned opens].
   constructor. unfold Rfd. destruct (as_fd r); reflexivity.
 Qed.
 
@@ -265,7 +271,7 @@ Lemma close_bal fd o o' : Permutation o (fd :: o') -> bal (@Rsame unit o') o (cl
 Proof.
   intro Hp. unfold close. constructor.
   - intros fd' E. inversion E; subst. rewrite (mem_perm _ _ _ Hp). apply mem_in. left; reflexivity.
-  - intro r. cbn [step_owned]. constructor. unfold Rsame. apply remove_one_cons_perm, Hp.
+  - intros r _. cbn [step_owned]. constructor. unfold Rsame. apply remove_one_cons_perm, Hp.
 Qed.
 
 (* ---- error plumbing ------------------------------------------------------------ *)
@@ -483,7 +489,7 @@ Lemma new_fsopen_bal subset o : bal (Rph o) o (new_fsopen fz cfg subset).
 Proof.
   unfold new_fsopen, os.
   unfold bindR at 1. eapply bal_bind.
-  { apply bal_map_err_fd. unfold w_fsopen. constructor; [intros ? E; discriminate|]. intro r.
+  { apply bal_map_err_fd. unfold w_fsopen. constructor; [intros ? E; discriminate|]. intros r _.
     cbn [step_owned opens]. constructor. instantiate (1 := o). hnf. destruct (as_fd r); reflexivity. }
   intros [sfd|e] o1 Ho1; [|constructor; exact Ho1].
   assert (Hcl : forall e, bal (@Rph ekind o) o1 (close sfd ;;; Ret (Err e))).
@@ -505,7 +511,7 @@ Proof.
   eapply bal_bind.
   { apply bal_map_err_fd. instantiate (1 := o1). unfold w_fsmount.
     destruct (negb (valid_fd sfd)); [constructor; hnf; reflexivity|].
-    constructor; [intros ? E; discriminate|]. intro r. cbn [step_owned opens].
+    constructor; [intros ? E; discriminate|]. intros r _. cbn [step_owned opens].
     destruct (as_fd r) as [k|e]; cbn [app]; [constructor; hnf; reflexivity|].
     apply fail1_bal; [apply perm_closed_Rfd|hnf; reflexivity]. }
   intros [mfd|e] o2 Ho2.
@@ -524,7 +530,7 @@ Proof.
   { apply bal_map_err_fd. instantiate (1 := o). unfold w_open_tree.
     destruct (negb (valid_fd AT_FDCWD)); [constructor; hnf; reflexivity|].
     unfold rustix_path. destruct (has_nul _); [apply fail1_bal; [apply perm_closed_Rfd|hnf; reflexivity]|].
-    constructor; [intros ? E; discriminate|]. intro r. cbn [step_owned opens].
+    constructor; [intros ? E; discriminate|]. intros r _. cbn [step_owned opens].
     destruct (as_fd r) as [k|e]; cbn [app]; [constructor; hnf; reflexivity|].
     apply fail1_bal; [apply perm_closed_Rfd|hnf; reflexivity]. }
   intros [fd|e] o1 Ho1; [apply try_from_fd_bal; exact Ho1|constructor; exact Ho1].
